@@ -22,8 +22,7 @@ VARIABLES pos, obj     \* (not "i": a variable named like a bound variable of th
 vars == <<pos, obj>>
 
 (* ----- bytes <-> text (for the likely-subtags atoms) ---------------------- *)
-CharOf(b) == IF b \in 32..126 THEN SubSeq(Printable, b - 31, b - 31) ELSE "?"
-StrOf(bs) == FoldLeft(LAMBDA acc, b : acc \o CharOf(b), "", bs)
+StrOf(bs) == StrOfBytes(bs)
 OptStr(bs) == IF bs = <<>> THEN None ELSE StrOf(bs)
 OptB(str) == IF str = None THEN <<>> ELSE B(str)
 
@@ -158,13 +157,39 @@ JudgeDir(e, o) ==
     IF e.dir \in AllowedDir(StrOf(e.l), OptStr(e.s), OptStr(e.r), e.likely, <<>>) THEN Good(o)
     ELSE Bad("direction", <<"C14">>, o)
 
-(* a pair the driver believes equivalent (C09): the SPECIFICATION decides    *)
-(* whether it is; only then is the implementation required to agree          *)
+(* a pair the driver believes equivalent (C09).  The SPECIFICATION decides   *)
+(* whether the pair is one C09 speaks about, and only then is the           *)
+(* implementation required to agree:                                         *)
+(*  - the texts differ only in letter case and separator choice (any zone,  *)
+(*    also ill-formed, "either" and "free" inputs), or                      *)
+(*  - both verdicts are fixed by the grammar (accept / reject) and the      *)
+(*    values are equal (reordered unordered parts).                          *)
+(* A pair that merely moves an empty subtag is not judged: in the "either"  *)
+(* zone each text may be accepted or rejected on its own.                    *)
+NormText(bs) == [k \in 1..Len(bs) |-> IF bs[k] = 95 THEN 45 ELSE LowerB(bs[k])]
 JudgeMeta(e, o) ==
     LET ra == ParseLoc(e.a)  rb == ParseLoc(e.b)
-        equiv == \/ ra.zone = "reject" /\ rb.zone = "reject"
-                 \/ ra.zone # "reject" /\ rb.zone # "reject" /\ ra.val = rb.val
+        sameNorm == NormText(e.a) = NormText(e.b)
+        fixed == {"accept", "reject"}
+        equiv == \/ sameNorm
+                 \/ /\ ra.zone \in fixed /\ rb.zone \in fixed
+                    /\ \/ ra.zone = "reject" /\ rb.zone = "reject"
+                       \/ ra.zone = "accept" /\ rb.zone = "accept" /\ ra.val = rb.val
     IN IF equiv /\ ~e.same THEN Bad("meta-" \o e.tr, <<"C09">>, o) ELSE Good(o)
+
+(* a compile-time macro evaluated at run time (C16): the literal is well     *)
+(* formed, the value is what parsing the literal gives, no run-time failure  *)
+JudgeMacro(e, o) ==
+    IF e.out.k # "ok" THEN Bad("macro-runtime-failure-" \o e.m, <<"C16">>, o)
+    ELSE IF e.m \in {"langid", "langids", "langid_slice"} THEN
+        LET r == ParseLI(e.lit) IN
+        IF r.ok /\ e.st = r.val /\ e.rt_eq THEN Good(o) ELSE Bad("macro-value-" \o e.m, <<"C16">>, o)
+    ELSE IF e.m \in {"locale", "locales"} THEN
+        LET r == ParseLoc(e.lit) IN
+        IF r.zone = "accept" /\ e.st = r.val /\ e.rt_eq THEN Good(o) ELSE Bad("macro-value-" \o e.m, <<"C16">>, o)
+    ELSE IF e.m \in Kinds THEN
+        IF IsKind(e.m, e.lit) /\ e.st = CanonKind(e.m, e.lit) /\ e.rt_eq THEN Good(o) ELSE Bad("macro-value-" \o e.m, <<"C16">>, o)
+    ELSE Bad("unknown-macro", <<"C16">>, o)
 
 Judge(e, o) ==
     CASE e.op = "li_parse"  -> JudgeLiParse(e, o)
@@ -179,6 +204,7 @@ Judge(e, o) ==
       [] e.op = "likely"    -> JudgeLikely(e, o)
       [] e.op = "dir"       -> JudgeDir(e, o)
       [] e.op = "meta"      -> JudgeMeta(e, o)
+      [] e.op = "macro"     -> JudgeMacro(e, o)
       [] OTHER              -> Bad("unknown-event", <<>>, o)
 
 (* ----- the trace specification ---------------------------------------------- *)
